@@ -189,7 +189,10 @@ def run(ctx):
         na, nb = "xa%d" % i, "xb%d" % i
         parent = rng.choice([cerberus.Validator, pool.PoolValidator])
         A = type('OnlyA%d' % i, (parent,), {prefix + na: (lambda self, *a: None)})
-        sa = {'f': {'type': 'list', 'schema': {rule: na}}} if rng.random() < 0.5 else {'f': {rule: na}}
+        sa = rng.choice([{'f': {'type': 'list', 'schema': {rule: na}}}, {'f': {rule: na}},
+                         {'f': {'type': 'dict', 'schema': {'g': {rule: na}}}},
+                         {'f': {'type': 'dict', 'schema': {'g': {'type': 'dict', 'schema': {'h': {rule: na}}}}}},
+                         {'f': {'type': 'dict', 'valuesrules': {rule: na}}}, {'f': {'anyof': [{rule: na}]}} if kind == 'check_with' else {'f': {'type': 'list', 'items': [{rule: na}]}}])
         ok_before = accepts(A, sa)
         B = type('OnlyB%d' % i, (parent,), {prefix + nb: (lambda self, *a: None)})
         sb = {'f': {rule: nb}}
@@ -201,7 +204,8 @@ def run(ctx):
         if not accepts(B, sb):
             violations.append({"signature": "availability:%s" % kind, "what": "the sibling subclass rejects its own %s" % kind, "replay": rp})
         for cls, sch, who in ((parent, sa, "parent class"), (parent, sb, "parent class"), (A, sb, "sibling"), (B, sa, "sibling")):
-            cls.clear_caches()
+            if rng.random() < 0.5:
+                cls.clear_caches()
             if accepts(cls, sch):
                 violations.append({"signature": "isolation:%s" % kind, "what": "the %s accepts a %s defined on another subclass" % (who, kind), "replay": rp})
     return {"violations": violations, "cases": cases, "nontrivial": len(distinct), "model_cases": 0, "disagreements_checked": 0,
